@@ -543,6 +543,7 @@ class B09Machine:
     def match_blocks(self):
         """for every block keyword the index of its partner(s)"""
         self.jump = {}
+        self.bad_next = None
         stack = []
         for i, n in enumerate(self.stmts):
             if n[0] == "open":
@@ -562,6 +563,9 @@ class B09Machine:
                 fstack.append(i)
             elif n[0] == "next":
                 j = fstack.pop() if fstack else None
+                if j is not None and self.stmts[j][1] != n[1]:
+                    # BASIC09 compiles FOR/NEXT as a block: the NEXT must name the variable of the FOR it closes
+                    self.bad_next = f"NEXT {n[1]} closes FOR {self.stmts[j][1]}"
                 self.jump[i] = j
                 if j is not None:
                     self.jump[("for", j)] = i
@@ -580,6 +584,9 @@ class B09Machine:
 
     def run(self):
         pc, gosub, forlim = 0, [], {}
+        if self.bad_next:
+            self.trace.append(("error", "BASIC09: unmatched control structure: " + self.bad_next))
+            return self.trace
         try:
             while pc < len(self.stmts):
                 self.budget -= 1
